@@ -209,7 +209,8 @@ def CopyImpl.render (c : CopyImpl) : GToks :=
 
 inductive DebugExpr where
   | transparent (f : FieldE)
-  /-- `f.debug_struct("Name").field("a", …)….finish()`; `fields` = the non-ignored ones -/
+  /-- `DebugStruct::finish(DebugStruct::field(&mut Formatter::debug_struct(f, "Name"), "a", …)…)`, every name by its
+  absolute path; `fields` = the non-ignored ones -/
   | builder (named : Bool) (ident : String) (fields : List FieldE)
 deriving Inhabited
 
@@ -282,11 +283,15 @@ def nameLit (t : Tok) : Tok := "\"" ++ unraw t ++ "\""
 def DebugExpr.render (toExpr : FieldE → GToks) : DebugExpr → GToks
   | .transparent f => absPath ["core", "fmt", "Debug", "fmt"] +++ paren (toExpr f +++ [",", "__f"])
   | .builder named ident fields =>
-    ["__f", dotM (if named then "debug_struct" else "debug_tuple")] +++ paren [nameLit ident] +++
-      (fields.flatMap fun f =>
-        if named then [dotM "field"] +++ paren (nameLit f.member ::: "," ::: toExpr f)
-        else [dotM "field"] +++ paren (toExpr f)) +++
-      [dotM "finish", "(", ")"]
+    -- the builder is driven through paths (`::core::fmt::DebugStruct::field(acc, "a", …)`), never through method
+    -- calls: a method call is looked up among the traits in scope of the caller (F31)
+    let b := if named then "DebugStruct" else "DebugTuple"
+    absPath ["core", "fmt", b, "finish"] +++ paren
+      (fields.foldl (fun acc f =>
+          absPath ["core", "fmt", b, "field"] +++ paren
+            (acc +++ (if named then "," ::: nameLit f.member ::: "," ::: toExpr f else "," ::: toExpr f)))
+        (["&", "mut"] +++ absPath ["core", "fmt", "Formatter", if named then "debug_struct" else "debug_tuple"] +++
+          paren ["__f", ",", nameLit ident]))
 
 def DebugImpl.render (d : DebugImpl) : GToks :=
   let tr := Kind.debug.path
